@@ -50,6 +50,7 @@ var servicesSrc = []service{
 	{"echo", "/services/v/echo", `@endpoint get path="/services/v/echo"
 
 import "http"
+import "strings"
 
 func tag(user string, p string) string {
     t := ""
@@ -66,7 +67,7 @@ func handler(req http.Request, w *http.ResponseWriter) {
     }
     user := req.Username
     body := req.Body
-    result := tag(user, p) + "body=" + body
+    result := tag(user, p) + "body=" + body + " P=" + strings.ToUpper(p) + strings.Repeat("!", len(user))
     w.WriteHeader(200)
     w.Write(result)
 }
